@@ -79,3 +79,14 @@ func newGetRandomFloatFunc() *value.Function {
 
 	return value.NewFunction(getRandomFloatExecutor)
 }
+
+// newGlobalValues - the predefined values of ONE execution: plain values (such as
+// 数值, which has in-place methods like 自增) are copied, so that a program cannot
+// change what the next execution - or a concurrent one - sees.
+func newGlobalValues() map[string]r.Element {
+	values := make(map[string]r.Element, len(GlobalValues))
+	for name, elem := range GlobalValues {
+		values[name] = value.DuplicateValue(elem)
+	}
+	return values
+}
